@@ -643,19 +643,35 @@ pub fn lc_main(prop: &str) {
             tags.push("clean_trace".into());
         }
         let classes = vec![];
-        let input_coq = coq_case(&pre, &msgs);
+        let input_coq = if prop == "C07" { format!("CStream {}", coq_case(&pre, &msgs)) } else { coq_case(&pre, &msgs) };
         let id = sink.next_id();
         sink.push(Case { id, key: input_coq.clone(), input_coq, input_json: json_case(&pre, &msgs), obs: r.obs(), verdict, classes, tags, nontrivial });
     };
     if let Some(p) = &a.replay {
         let v = read_replay(p);
-        let (pre, msgs) = case_from_json(&v["case"]);
-        record(&mut sink, pre, msgs, None);
+        if v["case"].get("table").is_some() {
+            let rows: Vec<TRow> = v["case"]["table"].as_array().unwrap().iter().map(TRow::from_json).collect();
+            record_table(&mut sink, rows);
+        } else {
+            let (pre, msgs) = case_from_json(&v["case"]);
+            record(&mut sink, pre, msgs, None);
+        }
         sink.finish();
         return;
     }
     for (pre, msgs) in corpus() {
         record(&mut sink, pre, msgs, None);
+    }
+    if prop == "C07" {
+        // listing on arbitrary tables (resume chains whose start estimates cross, ties, origins missing from the table)
+        record_table(&mut sink, vec![TRow { id: 1, ecu: 1, start: 900, resume: None }, TRow { id: 2, ecu: 1, start: 890, resume: Some((1, 900)) }, TRow { id: 3, ecu: 1, start: 895, resume: Some((2, 890)) }]);
+        record_table(&mut sink, vec![TRow { id: 2, ecu: 1, start: 50, resume: Some((1, 100)) }, TRow { id: 3, ecu: 2, start: 70, resume: None }, TRow { id: 1, ecu: 1, start: 100, resume: None }]);
+        let nt = a.count.map(|c| c / 2).unwrap_or(match a.tier.as_str() { "quick" => 300, "search" => 1500, _ => 5000 });
+        let mut trng = Rng::new(a.seed ^ 0x7ab1e);
+        for _ in 0..nt {
+            let rows = gen_table(&mut trng);
+            record_table(&mut sink, rows);
+        }
     }
     let n = a.count.unwrap_or(match a.tier.as_str() { "quick" => 400, "search" => 1500, _ => 6000 });
     let mut rng = Rng::new(a.seed);
@@ -664,6 +680,9 @@ pub fn lc_main(prop: &str) {
         if k % clean_share == 0 {
             let t = gen_clean(&mut rng);
             record(&mut sink, vec![], t.msgs.clone(), Some(&t));
+        } else if k % 7 == 3 {
+            let msgs = gen_resume_chain(&mut rng);
+            record(&mut sink, vec![], msgs, None);
         } else {
             let pre = gen_pre(&mut rng);
             let max_len = match rng.below(10) { 0 => 80, 1..=3 => 40, _ => 14 };
@@ -672,4 +691,137 @@ pub fn lc_main(prop: &str) {
         }
     }
     sink.finish();
+}
+
+
+// ------------------------------------------------------------------ resume chains (one or two ECUs)
+/// segments separated by reception gaps > 10 s whose first timestamp continues the previous one (detected as resume),
+/// followed by messages that pull the start estimate back by up to 60 s each
+pub fn gen_resume_chain(rng: &mut Rng) -> Vec<MSpec> {
+    let mut out = vec![];
+    let necu = rng.range(1, 2);
+    let mut rt = RHO + 1_000_000_000;
+    let mut ts: Vec<u64> = vec![100_000_000; necu as usize]; // us
+    let nseg = rng.range(2, 5);
+    for seg in 0..nseg {
+        let e = rng.below(necu) as usize;
+        if seg > 0 {
+            rt += rng.range(11_000_000, 120_000_000);
+            ts[e] += rng.range(0, 40_000_000);
+        }
+        let n = rng.range(1, 4);
+        for k in 0..n {
+            if k > 0 {
+                rt += rng.range(0, 2_000_000);
+                // timestamp advances more than reception time: start estimate moves earlier (<= 60 s per step)
+                ts[e] += rng.range(0, 58_000_000);
+            }
+            out.push(MSpec { ecu: e as u8 + 1, rt, ts_dms: (ts[e] / 100) as u32, has_ts: true, kind: 0 });
+        }
+    }
+    out
+}
+
+// ------------------------------------------------------------------ listing on synthetic tables (C07)
+#[derive(Clone, Debug)]
+pub struct TRow {
+    pub id: u32,
+    pub ecu: u8,
+    pub start: u64,
+    pub resume: Option<(u32, u64)>,
+}
+impl TRow {
+    pub fn json(&self) -> Value {
+        json!([self.id, self.ecu, self.start, self.resume.map(|r| vec![r.0 as u64, r.1])])
+    }
+    pub fn from_json(v: &Value) -> TRow {
+        TRow { id: v[0].as_u64().unwrap() as u32, ecu: v[1].as_u64().unwrap() as u8, start: v[2].as_u64().unwrap(),
+               resume: v[3].as_array().map(|a| (a[0].as_u64().unwrap() as u32, a[1].as_u64().unwrap())) }
+    }
+    pub fn coq(&self) -> String {
+        format!("({}, {}, {}, {})", self.id, self.ecu, self.start, copt(self.resume.map(|r| format!("({}, {})", r.0, r.1))))
+    }
+}
+pub fn gen_table(rng: &mut Rng) -> Vec<TRow> {
+    let n = rng.range(1, 9) as u32;
+    let few = rng.chance(1, 2);
+    let mut rows: Vec<TRow> = vec![];
+    for id in 1..=n {
+        let start = if few { 100 + rng.below(6) * 10 } else { rng.below(1000) };
+        let resume = if id > 1 && rng.chance(1, 2) {
+            let oid = match rng.below(6) {
+                0 => 1000 + rng.below(5) as u32, // origin not in the table (merged away / other run)
+                _ => rng.range(1, id as u64 - 1) as u32,
+            };
+            let ostart = rows.iter().find(|r| r.id == oid).map(|r| r.start).unwrap_or(rng.below(1000));
+            // the snapshot of the origin's start may be later than the origin's current start
+            Some((oid, ostart.saturating_add(if rng.chance(1, 3) { rng.below(50) } else { 0 })))
+        } else {
+            None
+        };
+        rows.push(TRow { id, ecu: rng.range(1, 3) as u8, start: if rng.chance(1, 30) { u64::MAX - rng.below(2) } else { start }, resume });
+    }
+    // insertion order is irrelevant for the map but shuffle anyway
+    for i in (1..rows.len()).rev() {
+        let j = rng.below(i as u64 + 1) as usize;
+        rows.swap(i, j);
+    }
+    rows
+}
+pub fn record_table(sink: &mut Sink, rows: Vec<TRow>) {
+    let rows2 = rows.clone();
+    let r = catch_loc(move || {
+        let (lcs_r, mut lcs_w) = evmap::new::<LifecycleId, LifecycleItem>();
+        for row in rows2.iter() {
+            lcs_w.insert(row.id, Lifecycle::verif_new(row.id, dltgen::ecu(row.ecu), row.start, row.resume));
+        }
+        lcs_w.refresh();
+        let a = lcs_r.read().unwrap();
+        let l: Vec<u32> = adlt::lifecycle::get_sorted_lifecycles_as_vec(&a).iter().map(|l| l.id()).collect();
+        l
+    });
+    let verdict = match &r {
+        Err(e) => fail("listing_can_be_produced", e.clone()),
+        Ok(l) => {
+            let mut a = l.clone();
+            a.sort();
+            let mut b: Vec<u32> = rows.iter().map(|x| x.id).collect();
+            b.sort();
+            let mut v = Verdict::Ok;
+            if a != b {
+                v = fail("listing_each_once", format!("{:?}", l));
+            } else {
+                for (pos, id) in l.iter().enumerate() {
+                    let row = rows.iter().find(|x| x.id == *id).unwrap();
+                    if let Some((oid, _)) = row.resume {
+                        if let Some(po) = l.iter().position(|x| *x == oid) {
+                            if pos < po {
+                                v = fail("listing_resumed_after_origin", format!("lifecycle {} (resume of {}) listed before it: {:?}", id, oid, l));
+                            }
+                        }
+                    }
+                }
+                if rows.iter().all(|x| x.resume.is_none()) {
+                    let starts: Vec<u64> = l.iter().map(|id| rows.iter().find(|x| x.id == *id).unwrap().start).collect();
+                    if !starts.windows(2).all(|w| w[0] <= w[1]) {
+                        v = fail("listing_sorted_by_start", format!("{:?}", starts));
+                    }
+                }
+            }
+            v
+        }
+    };
+    let obs = match &r {
+        Ok(l) => O::T(vec![O::L(0), O::T(l.iter().map(|i| O::n(*i)).collect())]),
+        Err(_) => O::T(vec![O::L(1)]),
+    };
+    let input_coq = format!("CTable {}", clist(&rows.iter().map(|x| x.coq()).collect::<Vec<_>>()));
+    let chain = rows.iter().any(|x| x.resume.map(|(o, _)| rows.iter().any(|y| y.id == o && y.resume.is_some())).unwrap_or(false));
+    let mut tags = vec!["table".to_string(), format!("rows{}", rows.len())];
+    if chain {
+        tags.push("resume_chain".into());
+    }
+    let id = sink.next_id();
+    sink.push(Case { id, key: input_coq.clone(), input_coq, input_json: json!({"table": rows.iter().map(|x| x.json()).collect::<Vec<_>>()}),
+        obs, verdict, classes: vec![], tags, nontrivial: rows.len() >= 3 && rows.iter().any(|x| x.resume.is_some()) });
 }
